@@ -14,3 +14,17 @@ mod gen_c06;
 mod gen_c13;
 #[cfg(kani)]
 mod c12;
+#[cfg(kani)]
+mod gen_c10;
+#[cfg(kani)]
+mod c19;
+#[cfg(kani)]
+mod c16;
+#[cfg(kani)]
+mod gen_c09;
+#[cfg(kani)]
+mod gen_c20;
+#[cfg(kani)]
+mod gen_c15;
+#[cfg(kani)]
+mod c18;
